@@ -243,6 +243,20 @@ impl VTreeManager {
         ensures r.0 == self.vtree_index@[lbl.0 as int],
 //%% end
 
+//%% extract src/repr/vtree.rs :: impl VTreeManager :: fn vtree_root
+//%% @ret r
+//%% @spec
+        ensures *r == self.tree,
+//%% end
+
+// the number of variables the manager allocates: largest label + 1 (the defect fixed in ad19bb4 returned the largest label)
+//%% extract src/repr/vtree.rs :: impl VTreeManager :: fn num_vars
+//%% @ret r
+//%% @spec
+        requires vsmall(self.tree),
+        ensures r == vmax(self.tree),
+//%% end
+
 //%% extract src/repr/vtree.rs :: impl VTreeManager :: fn is_prime_index
 //%% @ret b
 //%% @spec
